@@ -21,20 +21,34 @@ Theorem C16_host_base_eq_path : forall bases base bucket rest,
 Proof. exact host_base_eq_path. Qed.
 Print Assumptions C16_host_base_eq_path.
 
-(* a match means exactly "<single label>.<configured base>" *)
+(* a match means exactly "<single non-empty label>.<configured base>" *)
 Theorem C16_match_sound : forall bases host b,
   match_bucket bases host = Some b ->
-  exists base, In base bases /\ host = b ++ dotc :: trim dotc base /\ ~ In dotc b.
+  exists base, In base bases /\ host = b ++ dotc :: trim dotc base /\ ~ In dotc b /\ b <> [].
 Proof. exact match_bucket_sound. Qed.
 Print Assumptions C16_match_sound.
 
-(* every other host (the base itself, multi-label prefixes, unrelated hosts) falls back to
-   path-style with the path unchanged *)
+(* every other host (the base itself, multi-label prefixes, an empty label ".<base>", unrelated
+   hosts) falls back to path-style with the path unchanged; by match_bucket_none_inv the
+   hypothesis is exactly "match_bucket finds nothing" *)
 Theorem C16_fallback : forall bases host path,
-  (forall base b, In base bases -> host = b ++ dotc :: trim dotc base -> In dotc b) ->
+  (forall base b, In base bases -> host = b ++ dotc :: trim dotc base -> In dotc b \/ b = []) ->
   route (HostBases bases) host path = route HostNone host path.
 Proof. exact host_base_fallback. Qed.
 Print Assumptions C16_fallback.
+
+(* the empty-label host ".<base>" yields no bucket and is served path-style, whatever other bases
+   are configured (a prefix left in front of any other base is empty or starts with '.') *)
+Theorem C16_empty_label_no_bucket : forall bases base,
+  match_bucket bases (dotc :: trim dotc base) = None.
+Proof. exact match_bucket_empty_label. Qed.
+Print Assumptions C16_empty_label_no_bucket.
+
+Theorem C16_empty_label_is_path_style : forall bases base path,
+  route (HostBases bases) (dotc :: trim dotc base) path
+  = route HostNone (dotc :: trim dotc base) path.
+Proof. exact host_base_empty_label. Qed.
+Print Assumptions C16_empty_label_is_path_style.
 
 (* extra slashes before the bucket or at the end of the path do not change the address *)
 Theorem C16_slashes : forall n m path,
@@ -44,4 +58,9 @@ Print Assumptions C16_slashes.
 
 Example C16_ex : route (HostBases [[46;115;51;46;116;46]%N (* ".s3.t." *)]) [98;107;116;46;115;51;46;116]%N (* "bkt.s3.t" *) [47;100;47;101]%N
                = ([98;107;116]%N, [100;47;101]%N).
+Proof. vm_compute. reflexivity. Qed.
+
+(* ".s3.t" against the base ".s3.t.": no bucket, the path is routed as it stands *)
+Example C16_ex_empty_label : route (HostBases [[46;115;51;46;116;46]%N]) [46;115;51;46;116]%N [47;100;47;101]%N
+               = ([100]%N, [101]%N).
 Proof. vm_compute. reflexivity. Qed.
